@@ -31,7 +31,83 @@ from vlib import MachineryError, main  # noqa: E402
 RUN_TIMEOUT = 60
 JSTYPE = {"str": "string", "bool": "boolean", "int": "integer", "obj": "object"}
 # one representative per kind of value; strT / str1 are the strings that print like the boolean / the integer
-VALUE = {"str": "tagx", "strT": "true", "str1": "1", "bool": True, "int": 1, "obj": {"n": 1}, "null": None}
+VALUE = {"str": "tagx", "strT": "true", "str1": "1", "strOff": "off-enum", "bool": True, "int": 1, "null": None,
+         "obj": {"n": 1}, "objM": {"m": "x"}, "objNM": {"n": 1, "m": "x"}, "arr": ["a", "b"], "arrBad": ["a", 2]}
+KEYS = ["ks", "kb", "ki", "ko", "ka", "zz"]
+_T4 = {"ks": {"type": "string"}, "kb": {"type": "boolean"}, "ki": {"type": "integer"}, "ko": {"type": "object"}}
+_RC = {"type": "object", "additionalProperties": False, "required": ["ks"], "properties": _T4}
+# the JSON text of the custom schemas of SchemaMC!MCShapes (the accept sets there are re-derived from these texts)
+SHAPE_JSON = {
+    "RC": _RC, "RDR": _RC,
+    "RO": {"type": "object", "required": ["ks"], "properties": _T4},
+    "CL": {"type": "object", "additionalProperties": False, "required": [], "properties": _T4},
+    "OP": {"type": "object", "properties": _T4},
+    "RX": {"type": "object", "additionalProperties": False, "required": ["ks"], "properties": {
+        "ks": {"type": "string", "enum": ["tagx", "true", "1"]}, "kb": {"type": "boolean"}, "ki": {"type": "integer"},
+        "ko": {"type": "object", "additionalProperties": False, "maxProperties": 1,
+               "properties": {"n": {"type": "integer"}, "m": {"type": "string"}}},
+        "ka": {"type": "array", "items": {"type": "string"}}}},
+    "RY": None,
+    "REF": {"$ref": "#/definitions/data", "definitions": {"data": _RC}},
+    "T": True, "F": False,
+}
+
+
+SHAPE_JSON["RY"] = json.loads(json.dumps(SHAPE_JSON["RX"]))
+SHAPE_JSON["RY"]["properties"]["ko"].pop("maxProperties")
+SHAPE_JSON["RY"]["properties"]["ko"]["required"] = ["n", "m"]
+
+
+def mini_valid(v, sch, root=None):
+    """validator for exactly the schema vocabulary used above (an abstraction-table check, not the oracle)"""
+    root = sch if root is None else root
+    if sch is True or sch is False:
+        return sch
+    if "$ref" in sch:
+        node = root
+        for part in sch["$ref"].lstrip("#/").split("/"):
+            node = node[part]
+        return mini_valid(v, node, root)
+    t = sch.get("type")
+    ok = {None: True, "object": isinstance(v, dict), "string": isinstance(v, str), "boolean": isinstance(v, bool),
+          "integer": isinstance(v, int) and not isinstance(v, bool), "array": isinstance(v, list)}[t]
+    if not ok:
+        return False
+    if "enum" in sch and v not in sch["enum"]:
+        return False
+    if isinstance(v, dict):
+        props = sch.get("properties", {})
+        if any(k not in v for k in sch.get("required", [])) or len(v) > sch.get("maxProperties", len(v)):
+            return False
+        if sch.get("additionalProperties") is False and any(k not in props for k in v):
+            return False
+        if any(k in props and not mini_valid(x, props[k], root) for k, x in v.items()):
+            return False
+    if isinstance(v, list) and "items" in sch and not all(mini_valid(x, sch["items"], root) for x in v):
+        return False
+    return True
+
+
+def check_tables(shapes, schema_of, keymap):
+    """every accept set / required set / openness of the model against the JSON text it stands for"""
+    for sid, sh in shapes.items():
+        js = schema_of(sid)
+        types = fix(sh["types"])
+        base = {keymap(k): VALUE["str"] for k in sh["req"]}
+        if mini_valid({}, js) != (not sh["none"] and not sh["req"]):
+            raise MachineryError(f"schema {sid}: the empty map is modelled wrongly")
+        if sh["req"] and mini_valid(base, js) != (not sh["none"]):
+            raise MachineryError(f"schema {sid}: required keys modelled wrongly")
+        for k in KEYS:
+            for kind, val in VALUE.items():
+                doc = dict(base)
+                doc[keymap(k)] = val
+                model = (not sh["none"]) and ((kind in types[k]) if k in types else bool(sh["open"]))
+                if k in sh["req"] and k in types and kind not in types[k]:
+                    model = False
+                if mini_valid(doc, js) != model:
+                    raise MachineryError(f"schema {sid}: {k}={val!r} is {'accepted' if model else 'rejected'} by SchemaMC.tla "
+                                         "and the other way round by the JSON text")
 KEYMAP = {"testify": {"ks": "mock-build-tags", "kb": "unroll-variadic"},
           "matryer": {"ks": "mock-build-tags", "kb": "with-resets"}}
 LEVELS = ["root", "pkg", "iA1", "iA2", "e1", "e2"]
@@ -46,32 +122,21 @@ def key_of(tmpl, k):
     return KEYMAP.get(tmpl, {}).get(k, {"zz": "zz-unknown"}.get(k, k))
 
 
-def schema_json(shape):
-    return json.dumps({"$schema": "http://json-schema.org/draft-07/schema#", "type": "object",
-                       "additionalProperties": bool(shape["open"]), "required": sorted(shape["req"]),
-                       "properties": {k: {"type": JSTYPE[t]} for k, t in sorted(shape["types"].items())}}, indent=1)
-
-
 def check_builtin(ctx, builtin):
     """The model's built-in schemas must be the ones shipped in the tree under test (they are an INPUT of the
     contract).  A tree with other built-in schemas needs an updated SchemaMC: not decidable here."""
-    for t, sh in builtin.items():
+    texts = {}
+    for t in builtin:
         p = ctx.snapshot() / "internal" / f"mock_{t}.templ.schema.json"
         try:
-            js = json.loads(p.read_text())
+            texts[t] = json.loads(p.read_text())
         except (OSError, ValueError) as e:
             raise MachineryError(f"cannot read {p}: {e}")
-        if js.get("additionalProperties") is not False or js.get("required") not in ([], None) or js.get("type") != "object":
-            raise MachineryError(f"built-in schema of {t} is not what SchemaMC.tla models (closed, nothing required): update the model")
-        props = js.get("properties", {})
-        for k, kind in sh["types"].items():
-            if props.get(KEYMAP[t][k], {}).get("type") != JSTYPE[kind]:
-                raise MachineryError(f"built-in schema of {t}: {KEYMAP[t][k]} is not {JSTYPE[kind]}: update SchemaMC.tla")
-        for k in ("zz", "ki", "ko"):
-            if key_of(t, k) in props:
-                raise MachineryError(f"built-in schema of {t} knows {key_of(t, k)}: update SchemaMC.tla")
-        if set(sh["req"]) or sh["open"]:
-            raise MachineryError("SchemaMC built-in schema shape changed without the harness")
+    for t, sh in builtin.items():
+        try:
+            check_tables({t: sh}, lambda sid: texts[sid], lambda k: key_of(t, k))
+        except MachineryError as e:
+            raise MachineryError(f"built-in schema of {t} is not what SchemaMC.tla models -- update the model ({e})")
 
 
 # ---------------------------------------------------------------------------------------------- loopback server
@@ -87,6 +152,11 @@ class Loopback:
                 with lock:
                     outer.log.append(self.path)
                     body = outer.routes.get(self.path)
+                if isinstance(body, tuple):          # ("redirect", target path)
+                    self.send_response(302)
+                    self.send_header("Location", body[1])
+                    self.end_headers()
+                    return
                 if body is None:
                     self.send_response(404)
                     self.end_headers()
@@ -137,16 +207,23 @@ class World:
             base = f"http://127.0.0.1:{web.port}{prefix}/"
         self.urls = {}
         if base:
-            self.urls = {"default": turl + ".schema.json", "alt1": base + "alt1.json", "alt2": base + "sub/alt2.schema.json"}
+            self.urls = {"default": turl + ".schema.json", "alt1": base + "alt1.json", "alt2": base + "sub/alt2.schema.json",
+                         "pA1": base + "if_A1.json", "pA2": base + "if_A2.json", "perif": base + "if_{{.InterfaceName}}.json"}
             for loc, st in c["loc"].items():
                 if st == "absent":
                     continue
-                body = "{not json" if st == "garbage" else '{"type": 5, "properties": 7}' if st == "notschema" else schema_json(shapes[st])
+                body = {"garbage": "{not json", "notschema": '{"type": 5, "properties": 7}', "empty": ""}.get(st)
+                if body is None:
+                    body = json.dumps(SHAPE_JSON[st], indent=1)
                 u = self.urls[loc]
                 if u.startswith("file://"):
                     files[os.path.relpath(u[len("file://"):], R)] = body
                 else:
-                    web.routes[u[len(f"http://127.0.0.1:{web.port}"):]] = body.encode()
+                    path = u[len(f"http://127.0.0.1:{web.port}"):]
+                    if st == "RDR":                  # the schema URL answers 302 -> where the schema really is
+                        web.routes[path] = ("redirect", path + ".moved")
+                        path += ".moved"
+                    web.routes[path] = body.encode()
 
         def level_conf(lv):
             d = {}
@@ -323,6 +400,9 @@ def _run(ctx):
     if not tables:
         raise MachineryError("no SCHEMAS line from TLC")
     shapes, builtin = tables[0]["shapes"], tables[0]["builtin"]
+    if set(shapes) != set(SHAPE_JSON):
+        raise MachineryError("SchemaMC!MCShapes and the schema texts of the harness differ")
+    check_tables(shapes, lambda sid: SHAPE_JSON[sid], lambda k: key_of("file", k))
     check_builtin(ctx, builtin)
     cases = r.prints("CASE")
     if len(cases) < 1000 or len({c["id"] for c in cases}) != len(cases):
@@ -350,6 +430,15 @@ def _run(ctx):
             lambda c: c["fam"] == "L" and "null" in c["id"] and c["expect"]["F1"]["bad_maps"] == ["A1"],
         "an unknown key whose value is null under a closed schema":
             lambda c: c["fam"] == "N" and ".zz." in c["id"] and c["must_fail"],
+        "a nested map that violates its schema only after the levels are merged":
+            lambda c: c["fam"] == "X" and "RX-ko." in c["id"] and c["expect"]["F2"]["bad_maps"] == ["e1"] and not c["expect"]["F1"]["bad_maps"],
+        "a nested map that conforms only after the levels are merged":
+            lambda c: c["fam"] == "X" and "RY-ko." in c["id"] and sorted(c["expect"]["F2"]["bad_maps"]) == ["e2", "file"],
+        "an enum / array item violation": lambda c: c["fam"] == "X" and ("strOff" in c["id"] or "arrBad" in c["id"]) and c["must_fail"],
+        "the schemas true and false, an empty schema file, $ref, a redirect":
+            lambda c: c["fam"] == "S" and c["tmpl"] == "http" and c["expect"]["F1"]["state"] == "RDR",
+        "a template-schema templated per interface with different verdicts":
+            lambda c: c["fam"] == "P" and {c["expect"]["F1"]["verdict"], c["expect"]["F2"]["verdict"]} == {"ok", "bad"},
         "a built-in template, require-template-schema-exists false, violating data":
             lambda c: c["tmpl"] in ("testify", "matryer") and not c["expect"]["F1"]["require"] and c["expect"]["F1"]["verdict"] == "bad",
         "a wrong type repaired by a more specific level": lambda c: fix(c["data"]["root"]).get("kb") == "str" and c["expect"]["F1"]["bad_maps"] == ["file"] and
@@ -393,14 +482,16 @@ def _run(ctx):
                 # look-alikes: every (key, conforming level, violating level) once, whatever the template
                 pair, levs = c["id"].split("/")[2].split(".")[:2]
                 k = ("L", pair, levs[1] if pair.endswith("null") else levs[:2])
+            if c["fam"] in ("X", "S", "P"):
+                k += (c["id"].split("/")[2].rsplit(".", 1)[0],)      # which feature / state, not which level
             if c["fam"] == "N":
                 k = ("N",) + tuple(c["id"].split("/")[2].split("."))      # schema shape, key, level
-            if k not in seen and (len(pick) < 450 or c["fam"] in ("L", "R", "N")):
+            if k not in seen and (len(pick) < 450 or c["fam"] in ("L", "R", "N", "X", "S", "P")):
                 seen.add(k)
                 pick.append(c)
             else:
                 rest.append(c)
-        pick += rest[:max(0, 880 - len(pick))]
+        pick += rest[:max(0, 940 - len(pick))]
     for what, pred in guards.items():     # the sample must keep the interesting situations
         if replay_only:
             break
